@@ -490,14 +490,21 @@ pub fn minimise(prop: &dyn Prop, env: &Env, first: &Failure, budget: Duration) -
     let t0 = Instant::now();
     let mut best = first.clone();
     let mut steps = 0;
+    // never revisit a case: candidate generators need not be monotone
+    let mut seen: BTreeSet<u64> = BTreeSet::new();
+    let key = |v: &Value| prng::fnv(serde_json::to_string(v).unwrap().as_bytes());
+    seen.insert(key(&best.case));
     'outer: loop {
-        if t0.elapsed() > budget {
+        if t0.elapsed() > budget || steps >= 500 {
             break;
         }
         let cands = prop.shrink(&best.case);
         for c in cands {
             if t0.elapsed() > budget {
                 break 'outer;
+            }
+            if !seen.insert(key(&c)) {
+                continue;
             }
             let out = prop.execute(env, &c);
             if let Some(f) = out.failure {
@@ -632,7 +639,7 @@ pub fn check_main(prop: &dyn Prop, opts: &DriverOpts, extra: &dyn Fn(&Env, &mut 
             continue;
         }
         let group = format!("{}|{}", f.oracle, f.detail.chars().take(60).collect::<String>());
-        if reported.contains(&group) || reported.len() >= 5 {
+        if reported.contains(&group) || reported.len() >= 3 {
             violations += 1;
             continue;
         }
